@@ -482,6 +482,12 @@ class SpecEval:
             r_ = z3.Const('oa_r', z3.IntSort())
             new_, old_ = self.heap.get(key), self.old.get(key)
             return SV(z3.ForAll([r_], z3.Implies(z3.And(r_ >= 1, r_ <= self.old.get(('alloc', 'arr'))), new_[r_] == old_[r_]), patterns=[new_[r_]]), 'bool')
+        if name == 'mathpow':
+            # mathpow(x, y): math.Pow(x, y) - the same uninterpreted function as the trusted model of math.Pow
+            x_, y_ = self.ev(args[0]), self.ev(args[1])
+            tx = z3.ToReal(x_.t) if z3.is_int(x_.t) else x_.t
+            ty_ = z3.ToReal(y_.t) if z3.is_int(y_.t) else y_.t
+            return SV(w.uf('math_Pow', z3.RealSort(), z3.RealSort(), z3.RealSort())(tx, ty_), 'float64')
         if name == 'bitand':
             # bitand(x, y): Go's x & y on non-negative operands - the same uninterpreted function the code translation uses
             x_, y_ = self.ev(args[0]), self.ev(args[1])
